@@ -202,6 +202,9 @@ func attributeWrites(fc *fakeConn, msgs []*outMsg, f int) (unowned int) {
 		fm := &fr[0]
 		switch {
 		case fm.IsControl():
+			if fm.Op != wsgen.OpPing {
+				continue // a close or pong frame is nbio's own reply, not a message of a writer
+			}
 			for _, m := range msgs {
 				if m.kind == 'P' && fm.Op == wsgen.OpPing && bytes.Equal(fm.Payload, m.payload) {
 					wr.owner = m
